@@ -401,14 +401,20 @@ def Scalar.dumps : Scalar → List Char
 
 def isDigit (c : Char) : Bool := '0' ≤ c && c ≤ '9'
 
+/-- JSON forbids leading zeros -/
+def leadingZero (ds : List Char) : Bool :=
+  match ds with
+  | '0' :: _ :: _ => true
+  | _ => false
+
 def Scalar.parse (t : List Char) : Option (Scalar × List Char) :=
   match t with
   | '"' :: t1 => (parseJStr t1).map (fun p => (.str p.1, p.2))
   | '-' :: t1 =>
     let ds := t1.takeWhile isDigit
-    if ds.isEmpty then none else some (.int true ds, t1.dropWhile isDigit)
+    if ds.isEmpty || leadingZero ds then none else some (.int true ds, t1.dropWhile isDigit)
   | _ =>
     let ds := t.takeWhile isDigit
-    if ds.isEmpty then none else some (.int false ds, t.dropWhile isDigit)
+    if ds.isEmpty || leadingZero ds then none else some (.int false ds, t.dropWhile isDigit)
 
 end Liquer.StateTypes
